@@ -1038,6 +1038,9 @@ pub struct GlobalData {
     /// Invoked Sessions. Key: InvokeId.
     pub child_sessions: HashMap<InvokeId, ScxmlSession>,
 
+    /// Sessions that were invoked by this session and are cancelled or done.
+    pub former_child_sessions: HashSet<SessionId>,
+
     /// Set if this FSM was created as result of some invoke.
     pub caller_invoke_id: Option<InvokeId>,
     pub parent_session_id: Option<SessionId>,
@@ -1069,6 +1072,7 @@ impl GlobalData {
             internalQueue: Queue::new(),
             externalQueue: BlockingQueue::new(),
             child_sessions: HashMap::new(),
+            former_child_sessions: HashSet::new(),
             caller_invoke_id: None,
             parent_session_id: None,
             session_id: 0,
@@ -1637,11 +1641,15 @@ impl Fsm {
                             //    Once it cancels the invoked session, the Processor MUST ignore any events
                             //    it receives from that session. In particular it MUST NOT not insert them
                             //    into the external event queue of the invoking session.
-                            // Check if the session is active.
-                            if get_global!(datamodel)
-                                .child_sessions
-                                .contains_key(invoke_id)
-                            {
+                            // The event of a child of some other session has an invoke id, too:
+                            // only a session that was invoked here and is cancelled is ignored.
+                            let from_former_child = match Self::origin_session_id(&externalEventTmp) {
+                                Some(origin_session) => get_global!(datamodel)
+                                    .former_child_sessions
+                                    .contains(&origin_session),
+                                None => false,
+                            };
+                            if !from_former_child {
                                 externalEvent = externalEventTmp;
                                 break;
                             } else {
@@ -3201,11 +3209,25 @@ impl Fsm {
         }
     }
 
+    /// The id of the session that sent the event via the SCXML I/O Processor.
+    fn origin_session_id(event: &Event) -> Option<SessionId> {
+        event
+            .origin
+            .as_ref()?
+            .strip_prefix(SCXML_TARGET_SESSION_ID_PREFIX)?
+            .parse::<SessionId>()
+            .ok()
+    }
+
     #[allow(non_snake_case)]
     fn cancelInvoke(&mut self, datamodel: &mut dyn Datamodel, invoke_id: &InvokeId, session_id: SessionId) {
         #[cfg(feature = "Trace_Method")]
         self.tracer.enter_method("cancelInvoke");
-        get_global!(datamodel).child_sessions.remove(invoke_id);
+        {
+            let mut global = get_global!(datamodel);
+            global.child_sessions.remove(invoke_id);
+            global.former_child_sessions.insert(session_id);
+        }
         datamodel.send(
             SCXML_EVENT_PROCESSOR_SHORT_TYPE,
             &Data::String(format!("{}{}", SCXML_TARGET_SESSION_ID_PREFIX, session_id)),
